@@ -1044,6 +1044,10 @@ class _FnAnalysis:
             return NONE
         if name in ALIAS_METHODS:
             return recvv.elem()
+        if name in ("copy", "view") and isinstance(c, ast.Call):
+            deep = next((k.value for k in c.keywords if k.arg == "deep"), c.args[0] if (name == "copy" and c.args) else None)
+            if deep is not None and const_value(deep, default=True) is False:
+                return recvv.elem()  # a shallow copy shares the data buffers with the original
         if recvv.paths:
             self.unmodelled.add(name) if name not in _KNOWN_FRESH else None
         return FRESH
